@@ -87,6 +87,15 @@ Theorem C02_gpsum (F : realFieldType) (m G : nat) (w : 'I_G -> F) (mean_g var_g 
 Proof. exact: gpsum_laws. Qed.
 Print Assumptions C02_gpsum.
 
+(* ... and the same for the gradient entry points (joint = separate, whichever entry point is used) *)
+Theorem C02_gpsum_gradients (F : realFieldType) (m G d : nat) (w : 'I_G -> F) (mean_g var_g : 'I_G -> 'cV[F]_m) (gmean_g gvar_g : 'I_G -> 'M[F]_(m, d)) :
+  GPSum.sum_grad_mean w gmean_g = \sum_(g < G) w g *: gmean_g g /\
+  GPSum.sum_grad_var w gvar_g = \sum_(g < G) (w g) ^+ 2 *: gvar_g g /\
+  GPSum.sum_j_mean w mean_g = GPSum.sum_mean w mean_g /\ GPSum.sum_j_var w var_g = GPSum.sum_var w var_g /\
+  GPSum.sum_j_grad_mean w gmean_g = GPSum.sum_grad_mean w gmean_g /\ GPSum.sum_j_grad_var w gvar_g = GPSum.sum_grad_var w gvar_g.
+Proof. exact: gpsum_grad_laws. Qed.
+Print Assumptions C02_gpsum_gradients.
+
 (* ordering of the observations: for any permutation s of the data (rows of K, P, y; columns of K_eval) the permuted system's
    weights are the permuted weights and the predicted mean is unchanged (via uniqueness of the saddle-point solution) *)
 Theorem C02_permutation_invariance (F : realFieldType) (n m p : nat) (K : 'M[F]_n) (P : 'M[F]_(n,p)) (y : 'cV[F]_n)
